@@ -103,7 +103,7 @@ impl<R: Read + Seek> ReadBox<&mut R> for Hev1Box {
 
         let header = BoxHeader::read(reader)?;
         let BoxHeader { name, size: s } = header;
-        if s > size {
+        if s > size || s < HEADER_SIZE {
             return Err(Error::InvalidData(
                 "hev1 box contains a box with a larger size than it",
             ));
